@@ -12,9 +12,9 @@ RULE = ('Evaluation = one (scene, bijectively renamed scene) pair run through th
         'coincident and distinct time stamps x exclusion subsets (incl. fall-back) x look-back/percentile '
         'settings; engineered scenes where simultaneous hits of several instruments straddle the look-back cut. '
         'Non-trivial = >= 2 ceilometers; distinct = hash of (rows, parameters, mapping).')
-ASSUMPTIONS = ['names are non-empty distinct strings']
+ASSUMPTIONS = ['names are non-empty distinct strings', 'names containing a NUL character: known finding D15 (five deterministic cases per run; other control characters are in the regular pools)']
 REQUIRED = ['order_reversing', 'substring_names', 'regex_like_names', 'numeric_string_names', 'exclusion_mapped',
-            'exclusion_fallback', 'lookback_lt100_coincident', 'permutation_of_same_names', 'exclusion_entry_absent_but_similar', 'tie_at_cut_between_instruments', 'instrument_vanishes_in_the_crop']
+            'exclusion_fallback', 'lookback_lt100_coincident', 'permutation_of_same_names', 'exclusion_entry_absent_but_similar', 'tie_at_cut_between_instruments', 'instrument_vanishes_in_the_crop', 'control_char_names', 'name_with_nul']
 SIZES = {'quick': 420, 'thorough': 8000}
 TARGETS = [
     ('numeric_string_names', ['9', '10', '11', '100', '2', '1', '20', '3']),
@@ -22,19 +22,31 @@ TARGETS = [
     ('regex_like_names', ['a.c', 'abc', '.*', 'a|b', '[ab]', 'a+', '^a', 'b$']),
     ('case_variant_names', ['Alpha', 'ALPHA', 'alpha', 'Bravo', 'bravo', 'BRAVO', 'aLPHA', 'Charlie']),
     ('emptyish_names', [' ', '  ', '_', '-', '.', ',', ';', '0']),
+    ('control_char_names', ['a\tb', 'a\nb', '\x7f', 'a\rb', '\x01', '\x1b[0m', 'a\\b', '"q"']),
     ('long_unicode_names', ['Zürich-' + 'x' * 50, 'Genève', 'Sion✈', 'Bâle', 'Ünter', 'ß', 'é', 'è']),
 ]
 
 
+# known finding D15: names containing a NUL character (trailing: never equal to themselves; embedded: equal to any
+# other name with the same prefix in pandas' hash tables)
+NUL_NAMES = ['%s\x00', '\x00', 'CL31-A\x00\x00', '%s\x00', 'a\x00b']
+
+
 def plan(tier, seed):
-    return [{'s': seed, 'i': i} for i in range(SIZES[tier])]
+    return [{'s': seed, 'i': i} for i in range(SIZES[tier])] + [{'s': seed, 'i': SIZES[tier] + j, 'nul': j} for j in range(len(NUL_NAMES))]
 
 
 def check(desc):
     rng = scenes.rng_for(desc['s'], NUM, desc['i'])
     i = desc['i']
     nce = int(rng.choice([2, 2, 3, 4, 6, 8]))
-    if i % 3 == 0:
+    if desc.get('nul') is not None:
+        sc = scenes.gen_scene(rng, nce=2, maxrows=200)
+        prm = {'call': {'MSA': None}, 'glob': {}}
+        if desc['nul'] == 3:
+            prm['call']['EXCLUDE_FOR_BASE_HEIGHT_CALC'] = [sorted(set(r[0] for r in sc['rows']))[0]]
+        i = 1                      # none of the engineered extras below
+    elif i % 3 == 0:
         sc = scenes.tie_cut_scene(rng) if i % 2 else scenes.close_chain_scene(rng, nce=3)
         if sc['fam'] == 'tiecut':
             # the look-back that makes the cut fall between two simultaneous hits of different instruments
@@ -91,6 +103,12 @@ def check(desc):
         new = [pool[j] for j in rng.permutation(len(pool))[:len(names)]] if len(names) <= len(pool) else None
     if new is None or len(set(new)) != len(names):
         new = ['n%02d' % j for j in range(len(names))][::-1]
+    if desc.get('nul') is not None:
+        nn = NUL_NAMES[desc['nul']]
+        new = [nn % names[0] if '%s' in nn else nn] + names[1:]
+        if desc['nul'] == 4:
+            new[1] = 'a\x00c'
+        kind = 'name_with_nul'
     mp = dict(zip(names, new))
     tags.add(kind)
     sc2 = dict(sc, rows=[[mp[r[0]], r[1], r[2], r[3]] for r in sc['rows']], names=[mp.get(n, n) for n in sc['names']])
